@@ -336,6 +336,12 @@ func (m *Machine) strLess(a, b Str) *term.T {
 	for i := n - 1; i >= 0; i-- {
 		r = m.C.Ite(m.C.Ult(ab[i], bb[i]), m.C.True, m.C.Ite(m.C.Eq(ab[i], bb[i]), r, m.C.False))
 	}
+	if !r.IsConst() {
+		if m.X.strLess == nil {
+			m.X.strLess = map[*term.T][2][]*term.T{}
+		}
+		m.X.strLess[r] = [2][]*term.T{ab, bb}
+	}
 	return r
 }
 
